@@ -1102,6 +1102,31 @@ def searchsorted(a, v, side='left'):
         fv = v.snapshot()
         return ndarray.fresh(v.shape, lambda i: core.cast(search(fv(i), 0, n), 'int64'), 'int64')
     return search(v, 0, n)
+def eye(N, M=None, k=0, dtype=float):
+    M = N if M is None else M
+    if not isinstance(N, int) or not isinstance(M, int): raise NeedsContract('eye of a symbolic size')
+    return from_real(_rnp.eye(N, M, k, dtype=_undt(dtype)))
+identity = lambda n, dtype=float: eye(n, dtype=dtype)
+def tensordot(a, b, axes=2):
+    a, b = asarray(a), asarray(b)
+    if isinstance(axes, int): raise NeedsContract('tensordot with an integer axes count')
+    ia, ib = axes
+    if isinstance(ia, (tuple, list)):
+        if len(ia) != 1: raise NeedsContract('tensordot over several axes')
+        ia, ib = ia[0], ib[0]
+    ia %= a.ndim; ib %= b.ndim; n = a.shape[ia]
+    dt = _rnp.result_type(a.dtype, b.dtype); fa, fb = a.snapshot(), b.snapshot()
+    sha = tuple(d for k_, d in enumerate(a.shape) if k_ != ia); shb = tuple(d for k_, d in enumerate(b.shape) if k_ != ib); na = len(sha)
+    def fn(i):
+        i1, i2 = tuple(i[:na]), tuple(i[na:])
+        term = lambda k_: core.cast(fa(i1[:ia] + (k_,) + i1[ia:]), dt) * core.cast(fb(i2[:ib] + (k_,) + i2[ib:]), dt)
+        if isinstance(n, int):
+            acc = None
+            for k_ in range(n): acc = term(k_) if acc is None else acc + term(k_)
+            return acc if acc is not None else core.cast(0, dt)
+        if SUM_HOOK[0] is None: raise NeedsContract('tensordot over a symbolic axis')
+        return SUM_HOOK[0](term, n, dt)
+    return ndarray.fresh(sha + shb, fn, dt)
 def stack(arrs, axis=0):
     arrs = [asarray(a) for a in arrs]
     nd = arrs[0].ndim + 1; axis = axis % nd
